@@ -609,15 +609,16 @@ pub fn check_server_stall(c: &SrvCase) -> CheckResult {
         block_on(async {
             let l = AsyncServer::listen(crate::util::lo0().as_str()).await.map_err(|e| Fail::new("harness-listen", e.to_string()))?;
             let a = l.local_addr().unwrap();
-            tokio::spawn(async move {
+            crate::peers::net::defer_drop(crate::peers::net::AbortOnDrop(tokio::spawn(async move {
                 let _ = AsyncServer::new(router).write_timeout(Some(wt)).serve(l).await;
-            });
+            })));
             Ok::<_, Fail>(a)
         })?
     } else {
         let server = Server::new(router).write_timeout(Some(wt));
         let l = server.listen(crate::util::lo0().as_str()).map_err(|e| Fail::new("harness-listen", e.to_string()))?;
         let a = l.local_addr().unwrap();
+        crate::peers::net::stop_at_end_of_case(&l);
         std::thread::spawn(move || {
             let _ = server.serve(l);
         });
